@@ -50,6 +50,9 @@ def run(chk):
                               'the worker reports the exception (flag + failure record) and stops', input_class=cls.__name__)
     transducer_suite(chk, 600 if chk.tier == 'quick' else 10000)
     scs = [gen.gen_fail_scenario(rng) for _ in range(300 if chk.tier == 'quick' else 5000)]
+    for _sc in scs:
+        if rng.random() < .25 and 'rules' not in _sc:
+            _sc['rules'] = gen.schedule_rules(rng, _sc['pool']['n_jobs'])      # adversarial schedules
     obs = run_scenarios(chk, 'failing calls under DetSim (kind x position of failure)', scs, {'C04', 'C03'},
                         nontrivial=lambda sc, o: bool(o.get('raised')),
                         dist=lambda sc, o: {'where': 'task' if sc['ops'][0]['fail'].get('at') else 'init' if sc['ops'][0]['fail'].get('init') else 'exit',
